@@ -259,6 +259,11 @@ def localUp (cfg : Cfg) (c : Nat) (f : Option Fault) (st : UState) : Att UState 
 def hook (cfg : Cfg) (code : Nat) (ra : Bool) : Err :=
   if cfg.hookAuthStatus = some code then .auth else .status code ra
 
+/-- does the body hash to the signed digest (ideal hash: the digest is the byte string); `none`: nothing was signed -/
+def digestMatches : Option Bytes → Bytes → Bool
+  | some d, body => decide (body = d)
+  | none, _ => true
+
 /-- `S3Compatible._put_object_stream` / `B2.upload_stream` against a service that checks the declared length (and, if a digest
 was signed, the digest) and stores only complete bodies -/
 def httpUp (cfg : Cfg) (c declared : Nat) (digest : Option Bytes) (f : Option Fault) (st : UState) : Att UState :=
@@ -274,8 +279,7 @@ def httpUp (cfg : Cfg) (c declared : Nat) (digest : Option Bytes) (f : Option Fa
       match f with
       | some (.status code ra) => ⟨some (hook cfg code ra), st1, p.1.length⟩
       | _ =>
-        let digestOk : Bool := match digest with | some d => decide (p.1 = d) | none => true
-        if p.1.length = declared ∧ digestOk = true then
+        if p.1.length = declared ∧ digestMatches digest p.1 = true then
           let st2 : UState := { st1 with visible := some p.1 }
           if f = some .lost then ⟨some .transport, st2, p.1.length⟩ else ⟨none, st2, p.1.length⟩
         else ⟨some (hook cfg 400 false), st1, p.1.length⟩
